@@ -1,5 +1,32 @@
 """Which engines decide which property, with the notes that go into the evidence."""
+
+COMMON_ASSUME = [
+    "slices have fewer than 2^47 elements; an Iter is not used again after AdvanceIter returned an error",
+    "A-append: nothing observes, through an older slice header, elements a later append wrote beyond that header's length (append is modelled with copy semantics)",
+    "callbacks (fn arguments) do not modify the tape or string buffer",
+    "objects reached through pointer fields that a loop overwrites are treated as distinct from other named objects after the loop's havoc",
+]
+
 PROPS = {
+    "C02": {"engines": ["govc"], "level": "proof",
+            "not_covered": "producer side (stage 2 emitting the tape) and Interface()/Map() interface values; composition of per-step contracts into 'the whole document' is a prose induction (DESIGN 5/C02)",
+            "assumptions": COMMON_ASSUME},
+    "C03": {"engines": ["govc"], "level": "proof",
+            "not_covered": "correct rounding is inherited from strconv.ParseFloat (assumed); only the typed accessors and flag plumbing are proved here unless parseNumber obligations are listed in functions_under_contract",
+            "assumptions": COMMON_ASSUME},
+    "C05": {"engines": ["govc"], "level": "proof",
+            "not_covered": "stack exhaustion through recursive readers; liveness of ParseNDStream; Interface()/Map() recursion",
+            "assumptions": COMMON_ASSUME},
+    "C12": {"engines": ["govc"], "level": "proof",
+            "not_covered": "Elements.Index with duplicate keys (Go map semantics uninterpreted); 'every admitted member is called back' (only 'no rejected member is called back' is proved)",
+            "assumptions": COMMON_ASSUME},
+    "C13": {"engines": ["govc"], "level": "proof",
+            "not_covered": "sequences of operations are covered by induction over single operations (each ensures the positioned-iterator invariant the next requires): prose",
+            "assumptions": COMMON_ASSUME},
     "C14": {"engines": ["govc"], "level": "proof",
-            "not_covered": "composition of per-step obligations into the whole-document statement is a prose induction (DESIGN 5/C14)"},
+            "not_covered": "composition of per-step obligations into the whole-document statement is a prose induction (DESIGN 5/C14); DeleteElems is proved for tapes in which every word, read as an entry, has its extent inside the window (restriction R1)",
+            "assumptions": COMMON_ASSUME},
+    "C19": {"engines": ["govc"], "level": "proof",
+            "not_covered": "panics inside the S2/zstd codecs; goroutines started by decBlock are not interleaved (E4 covers the join discipline)",
+            "assumptions": COMMON_ASSUME + ["declared section sizes are at most 2^31 (the property's allocation caveat), stated as an assumption on binary.ReadUvarint results"]},
 }
